@@ -9,6 +9,7 @@ import (
 	"strconv"
 
 	objectsvc "github.com/nspcc-dev/neofs-node/pkg/services/object"
+	cid "github.com/nspcc-dev/neofs-sdk-go/container/id"
 	cidtest "github.com/nspcc-dev/neofs-sdk-go/container/id/test"
 	neofscrypto "github.com/nspcc-dev/neofs-sdk-go/crypto"
 	neofscryptotest "github.com/nspcc-dev/neofs-sdk-go/crypto/test"
@@ -59,6 +60,11 @@ func replicateCases(srv *objectsvc.Server, r *rec, c *cfg, seed uint64, n int) [
 	other := neofscryptotest.Signer()
 	own := []byte("own-node-key")
 	maint := c.maint
+	// small dense universe: two containers and an epoch that advances now and then, so that
+	// anything the server remembers about (container, sender) from an earlier request collides
+	// with a later request whose membership facts differ
+	cnrs := []cid.ID{cidtest.ID(), cidtest.ID()}
+	epoch := uint64(0)
 	for i := 0; i < n; i++ {
 		rc := repCase{Kind: "replicate", Maint: maint}
 		rc.Scheme = g.n(10)
@@ -72,7 +78,10 @@ func replicateCases(srv *objectsvc.Server, r *rec, c *cfg, seed uint64, n int) [
 		rc.CnrMissing = g.n(12) == 0
 		rc.ObjOK = g.n(5) != 0
 		signer := signers[rc.Scheme%3]
-		cnr, id := cidtest.ID(), oidtest.ID()
+		if g.n(3) == 0 {
+			epoch++
+		}
+		cnr, id := cnrs[g.n(len(cnrs))], oidtest.ID()
 		obj := objecttest.Object()
 		obj.SetType(object.TypeRegular)
 		obj.SetContainerID(cnr)
@@ -114,7 +123,7 @@ func replicateCases(srv *objectsvc.Server, r *rec, c *cfg, seed uint64, n int) [
 		default:
 			req.Signature.Scheme = 3 + refs.SignatureScheme(g.n(3))
 		}
-		*c = cfg{maint: maint, ownKey: own, cnrMissing: rc.CnrMissing}
+		*c = cfg{maint: maint, ownKey: own, cnrMissing: rc.CnrMissing, epoch: epoch}
 		filler := func() []byte { return []byte("node-" + strconv.Itoa(g.n(1000))) }
 		c.cnrNodes = [][]byte{filler()}
 		if rc.ServerInCur {
